@@ -369,6 +369,12 @@ func runCheck(id, tier string, seed int) int {
 	trusted := map[string]bool{}
 	var funcsUnder []string
 	var noMeasure []string
+	type slowObl struct {
+		Name    string  `json:"obligation"`
+		Seconds float64 `json:"seconds"`
+		Solver  string  `json:"solver"`
+	}
+	var slowest []slowObl
 	knownSeen := map[string]bool{}
 	var deferred []string
 	clauseSeen := map[string]bool{}
@@ -408,6 +414,9 @@ func runCheck(id, tier string, seed int) int {
 			if o.Result != nil && o.Result.Solver != "" {
 				perSolver[o.Result.Solver]++
 				solverSecs[o.Result.Solver] += o.Result.Seconds
+				if o.Result.Seconds >= 1.0 {
+					slowest = append(slowest, slowObl{o.Name, round3(o.Result.Seconds), o.Result.Solver})
+				}
 			}
 			if obligationOK(o) {
 				discharged++
@@ -509,6 +518,14 @@ func runCheck(id, tier string, seed int) int {
 		"out_of_subset":             outOfSubset,
 		"discharged_by_backend":     perSolver,
 		"solver_seconds":            roundMap(solverSecs),
+		"slowest_obligations":       func() []slowObl {
+			sort.Slice(slowest, func(i, j int) bool { return slowest[i].Seconds > slowest[j].Seconds })
+			if len(slowest) > 10 {
+				return slowest[:10]
+			}
+			return slowest
+		}(),
+		"time_limit_per_obligation_s": timeout,
 		"contracts_digest":          C.Digest,
 		"contract_files":            relFiles(C.Files),
 		"bounded_checks":            boundedOut,
